@@ -204,6 +204,82 @@ def r20_2(ctx, prog, crate):
     ctx.anchor("R20.2", "is_last arguments", n, 7)
 
 
+def _strip_sites(e):
+    """Canonical expression with call-site block numbers removed (two evaluations of the same pure test compare equal)."""
+    if not isinstance(e, tuple):
+        return e
+    if e and e[0] == "site" and len(e) >= 3:
+        return ("site", e[1]) + tuple(_strip_sites(x) for x in e[3:])
+    return tuple(_strip_sites(x) for x in e)
+
+
+def r20_11(ctx, prog, crate):
+    """Rows that share one label are shown together or not at all: the optional row strings that finish_leaf prints as
+    one block under a single label (`max alloc:` - count row and size row) are present under the same condition, so a
+    block always has the same rows in the same positions."""
+    from lib.symexpr import Sym, bool_switch, show
+    b = prog.body(P + "finish_leaf", crate)
+    if not ctx.anchor("R20.11", "TreePainter::finish_leaf", 1 if b else 0, 1):
+        return
+    ctx.saw(b)
+    S = Sym(b, site_args=True)
+    n = 0
+    for bi, si, s in b.stmts():
+        if not (s["k"] == "assign" and s["rv"]["k"] == "agg" and s["rv"]["ak"] == "array" and len(s["rv"]["ops"]) >= 2 and "Option<&" in (s["p"].get("ty") or "")):
+            continue
+        gates = []
+        for o in s["rv"]["ops"]:
+            # o = X.as_ref() of an Option local X assigned None on one arm and Some(..) on the other
+            X = None
+            for c in b.live_calls():
+                if c.callee == "std::option::Option::as_ref" and o["k"] in ("move", "copy") and c.dest["l"] == o["p"]["l"]:
+                    a = c.args[0]
+                    for bj, sj, sd in b.stmts():
+                        if sd["k"] == "assign" and a["k"] in ("move", "copy") and sd["p"]["l"] == a["p"]["l"] and sd["rv"]["k"] == "ref" and not sd["rv"]["p"]["proj"]:
+                            X = sd["rv"]["p"]["l"]
+            defs = [(bj, sd["rv"].get("variant")) for bj, sj, sd in b.stmts() if X is not None and sd["k"] == "assign" and sd["p"]["l"] == X and not sd["p"]["proj"] and sd["rv"]["k"] == "agg"]
+            somes = [bj for bj, v in defs if v == "Some"]
+            nones = [bj for bj, v in defs if v == "None"]
+            g = None
+            thens = [c for c in b.live_calls() if X is not None and c.dest["l"] == X and not c.dest["proj"] and c.callee in ("core::bool::then", "core::bool::then_some")]
+            if len(thens) == 1 and not defs:
+                e_ = S.op(thens[0].args[0])
+                neg = False
+                while e_[0] == "un" and e_[1] == "Not":
+                    e_, neg = e_[2], not neg
+                g = (_strip_sites(("bool", e_)), not neg)
+            if len(somes) == 1 and len(nones) == 1:
+                cand = [sw_[0] for sw_ in b.switches() if b.dominates(sw_[0], somes[0]) and b.dominates(sw_[0], nones[0])]
+                if cand:
+                    x = max(cand, key=lambda y: sum(1 for z in range(len(b.blocks)) if b.dominates(z, y)))
+                    bs_ = bool_switch(b, S, x)
+                    if bs_ is None:
+                        # the test is a bool-valued call (`x.is_zero()`), not a comparison
+                        t_ = b.term(x)
+                        e_ = S.op(t_["discr"])
+                        neg = False
+                        while e_[0] == "un" and e_[1] == "Not":
+                            e_, neg = e_[2], not neg
+                        arms = {int(a_[0]): a_[1] for a_ in t_["arms"]}
+                        if not (set(arms) - {0, 1}):
+                            f_t, t_t = arms.get(0, t_["otherwise"]), arms.get(1, t_["otherwise"])
+                            if f_t != t_t:
+                                bs_ = (("bool", e_), f_t, t_t) if neg else (("bool", e_), t_t, f_t)
+                    if bs_ is not None:
+                        atom, t_t, f_t = bs_
+                        pol = b.dominates(t_t, somes[0]) or t_t == somes[0]
+                        g = (_strip_sites(atom), pol)
+            gates.append((X, g))
+        n += 1
+        if not ctx.check(all(g is not None for _, g in gates), "R20.11", ["finish_leaf", "rows-of-one-block", "gate-readable"],
+                         "cannot read the condition under which each row of a block printed under one label is present", b.where(bi)):
+            continue
+        ctx.check(len({g for _, g in gates}) == 1, "R20.11", ["finish_leaf", "rows-of-one-block", "present-together"],
+                  "the rows printed as one block under a single label are present under different conditions (%s): a block can lose one of its rows and the remaining row takes its place" %
+                  "; ".join("%s%s" % ("" if g[1] else "not ", show(g[0]) if isinstance(g[0], tuple) else g[0]) for _, g in gates), b.where(bi))
+    ctx.anchor("R20.11", "blocks of optional rows under one label", n, 1)
+
+
 def r20_10(ctx, prog, crate):
     """A leaf is closed with the position it was opened with: wherever one function both starts leaves and finishes
     them with statistics, the is_last given to finish_leaf (it decides whether the continuation rows carry the bar of a
@@ -754,6 +830,7 @@ def run(ctx, prog, crate):
     r20_8(ctx, prog, crate)
     r20_9(ctx, prog, crate)
     r20_10(ctx, prog, crate)
+    r20_11(ctx, prog, crate)
     r20_7(ctx, prog, crate)
     r20_1(ctx, prog, crate)
     r20_2(ctx, prog, crate)
